@@ -266,6 +266,12 @@ func parseExpr(in []byte) (Q, int, error) {
 		if subQ == nil {
 			return nil, 0, fmt.Errorf("query: '-' operator needs an argument")
 		}
+		switch subQ.(type) {
+		case *caseQ, *Type:
+			// case: and type: are directives of the enclosing expression list, not
+			// expressions; a bare one has no meaning under negation.
+			return nil, 0, fmt.Errorf("query: '-' cannot be applied to case: or type:")
+		}
 		b = b[n:]
 		expr = &Not{subQ}
 
